@@ -5,7 +5,8 @@ REQUIRED = ["CifModel.C18_stats_exact", "CifModel.C18_maxRun_spec", "CifModel.C1
             "CifModel.C18_prefers_simple", "CifModel.C18_reserved_iff", "CifModel.C18_set_unquoted_iff", "CifModel.C18_try_quoted",
             "CifModel.C18_delim_lexically_admissible", "CifModel.C18_delim_reads_back", "CifModel.C18_delim_reads_back_text",
             "CifModel.C18_set_quoted_all_kinds", "CifModel.C18_fits_limit", "CifModel.C18_delim_reads_back_value",
-            "CifModel.C18_text_field_reads_back_all", "CifModel.C18_text_field_reads_back_value"]
+            "CifModel.C18_text_field_reads_back_all", "CifModel.C18_text_field_reads_back_value",
+            "CifModel.C18_delim_reads_back_item", "CifModel.C18_text_field_reads_back_item"]
 GEN = ["ErrCodes", "NamesConsts"]
 FAMILIES = ["analyze", "reserved", "setq"]
 TRUSTED_BASE = [
@@ -42,9 +43,10 @@ PARTIAL = [
     "that interpretation (cif_value_get_number) is property C10's, not read back here",
     "C18_set_unquoted_iff examines the text only for a QUOTED character value asked to become unquoted; every other kind / flag "
     "combination is C18_set_quoted_all_kinds (an already unquoted character value keeps any text - such values are made by the parser only)",
-    "embedding of the presentation into a whole document (data name in front, following items) is the probe document of the `analyze` "
-    "executor (real cif_parse; text fields additionally through the real cif_write, probe W), not a theorem here; at model level it is "
-    "C02_parse_item_roundtrip / C01_parse_render / C02_roundtrip_doc",
+    "embedding: C18_delim_reads_back_item / C18_text_field_reads_back_item prove the step behind a data name (parse_item performs exactly "
+    "cif_container_set_value(name, .chr .. s), nothing reported); embedding into a WHOLE document (block header in front, following items, "
+    "loops) is the probe document of the `analyze` executor (real cif_parse; text fields additionally through the real cif_write, probe W) "
+    "and, at model level, C01_parse_render / C02_roundtrip_doc of the parser / writer groups - not restated here",
 ]
 LEVEL_TEXT = ("Proof: for every string, flag pair and limit the model's statistics equal those of the line decomposition "
               "(C18_stats_exact, by loop invariants), the recommended delimiter is permitted (C18_delim_permitted), admissible and "
